@@ -1,6 +1,7 @@
 package furisim
 
 import (
+	"runtime/pprof"
 	"bufio"
 	"encoding/json"
 	"fmt"
@@ -68,6 +69,14 @@ func watchdog(label string, d time.Duration) func() {
 		case <-done:
 		case <-time.After(d):
 			fmt.Printf("HANG %s\n", label)
+			// leave a goroutine dump next to the results for diagnosis
+			if dir := os.Getenv("VERIF_OUT"); dir != "" {
+				if f, err := os.Create(filepath.Join(dir, fmt.Sprintf("hang-%d.txt", time.Now().UnixNano()))); err == nil {
+					fmt.Fprintf(f, "HANG %s\n", label)
+					pprof.Lookup("goroutine").WriteTo(f, 2)
+					f.Close()
+				}
+			}
 			os.Exit(3)
 		}
 	}()
